@@ -21,6 +21,11 @@ type accessRec struct {
 	where string
 }
 
+type wgState struct {
+	n       int
+	waiters []*gthread
+}
+
 type raceState struct {
 	tid    int
 	held   map[int]map[interface{}]bool // per thread lockset
@@ -168,6 +173,52 @@ func registerThreads(ex *Explorer) {
 		}
 		in.onceDone[c] = true
 		in.callValue(a[1], nil)
+		return nil
+	}
+	// sync.WaitGroup in the goroutine model: a counter per WaitGroup value; Wait parks the caller
+	// until it reaches zero (nobody left to run = the runtime's deadlock report)
+	wgOf := func(in *Interp, v Value) *wgState {
+		c, _ := v.(*Cell)
+		if c == nil {
+			panic(goPanic{msg: "runtime error: invalid memory address or nil pointer dereference"})
+		}
+		if in.wgs == nil {
+			in.wgs = map[*Cell]*wgState{}
+		}
+		st := in.wgs[c]
+		if st == nil {
+			st = &wgState{}
+			in.wgs[c] = st
+		}
+		return st
+	}
+	wgAdd := func(in *Interp, st *wgState, d int) {
+		st.n += d
+		if st.n < 0 {
+			panic(goPanic{msg: "sync: negative WaitGroup counter"})
+		}
+		if st.n == 0 {
+			for _, t := range st.waiters {
+				t.blocked = false
+			}
+			st.waiters = nil
+		}
+	}
+	I["(*sync.WaitGroup).Add"] = func(in *Interp, fn *ssa.Function, a []Value) Value {
+		wgAdd(in, wgOf(in, a[0]), int(in.Concretize(a[1].(*sym.Term))))
+		return nil
+	}
+	I["(*sync.WaitGroup).Done"] = func(in *Interp, fn *ssa.Function, a []Value) Value {
+		wgAdd(in, wgOf(in, a[0]), -1)
+		return nil
+	}
+	I["(*sync.WaitGroup).Wait"] = func(in *Interp, fn *ssa.Function, a []Value) Value {
+		st := wgOf(in, a[0])
+		in.sched()
+		for st.n > 0 {
+			st.waiters = append(st.waiters, in.gs.cur)
+			in.gBlock()
+		}
 		return nil
 	}
 	I["(*sync.Mutex).Lock"] = lock
